@@ -109,8 +109,9 @@ def run(chk):
         prune_c = symx.c_or(("atom", f"truthy({NT})"), ("atom", f"truthy({IT})"))
         empty_c = symx.c_not(("atom", f"truthy({S_})"))
         body = [x for x in fn.body if not (isinstance(x, ast.Expr) and isinstance(x.value, ast.Constant))]
-        for p_ in paths(body):
+        for p_ in paths(body, split=True):
             pol_prune = pol_empty = None
+            known = {}
             for e in p_.events:
                 if e[0] != "test":
                     continue
@@ -120,6 +121,10 @@ def run(chk):
                     continue
                 if cnd in (True, False):
                     continue
+                if cnd[0] == "atom":
+                    known[cnd[1]] = e[2]
+                elif cnd[0] == "not" and cnd[1][0] == "atom":
+                    known[cnd[1][1]] = not e[2]
                 for target, nm in ((prune_c, "prune"), (empty_c, "empty")):
                     if aud.cond_equiv(cnd, target)[0]:
                         val = e[2]
@@ -131,6 +136,11 @@ def run(chk):
                         pol_prune = val
                     else:
                         pol_empty = val
+            # (a decision spelled over several tests: what the atoms decided on this path make of it)
+            if pol_prune is None:
+                pol_prune = symx.eval_cond3(prune_c, known)
+            if pol_empty is None:
+                pol_empty = symx.eval_cond3(empty_c, known)
             stm = [e[1] for e in p_.events if e[0] in ("stmt", "loop")]
             ret = stm[-1] if stm and isinstance(stm[-1], ast.Return) else None
             if p_.exit != "return" or ret is None:
@@ -159,7 +169,8 @@ def run(chk):
                 problems.append("an unpruned path returns without testing whether S is empty")
             elif pol_empty:
                 n_leaf += 1
-                if not (kw.get("cand") == c and kw.get("NEBTagList") == "[]" and kw.get("IRVTagList") == "[]" and not loops_on):
+                # (on a path where nothing prunes both tag lists are falsy lists, i.e. empty: naming them is writing [])
+                if not (kw.get("cand") == c and kw.get("NEBTagList") in ("[]", NT) and kw.get("IRVTagList") in ("[]", IT) and not loops_on):
                     problems.append("unpruned empty-S path: not a leaf with two empty tag lists")
             else:
                 n_rec += 1
@@ -224,18 +235,76 @@ def run(chk):
            mutations=muts)
     # rendering
     tl = chk.fn(VIS, "treeListToTuple", canonical=True)
-    ok = False
-    for s in walk_local(tl):
-        if isinstance(s, ast.If):
-            got = Tx().cond(s.test)
-            nd = next((norm(a0.targets[0]) for a0 in ast.walk(tl) if isinstance(a0, ast.Assign) and norm(a0.value) == f"{tl.args.args[0].arg}[0]"), f"{tl.args.args[0].arg}[0]")  # the leaf object, named or not
-            want = spec.cond_term(f"not ({nd}.NEBTagList or {nd}.IRVTagList)")
-            if aud.cond_equiv(got, want)[0]:
-                txt = [x.value for x in ast.walk(ast.Module(body=s.body, type_ignores=[])) if isinstance(x, ast.Constant) and isinstance(x.value, str)]
-                ok = any("Unpruned leaf" in t for t in txt) and not s.orelse
+    # by paths: on every feasible path through the leaf branch the marker text is written iff both tag lists were found empty.
+    # Atoms: truthy(<leaf>.NEBTagList), truthy(<leaf>.IRVTagList); a local list that starts as [] is truthy on a path iff the
+    # path appends to it (so `if blocks:` after conditional appends is decided by the appends made).
+    t_ = tl.args.args[0].arg
+    nd = next((norm(a0.targets[0]) for a0 in ast.walk(tl) if isinstance(a0, ast.Assign) and norm(a0.value) == f"{t_}[0]"), f"{t_}[0]")  # the leaf object, named or not
+    a_neb, a_irv = f"truthy({nd}.NEBTagList)", f"truthy({nd}.IRVTagList)"
+    body_tl = [x for x in tl.body if not (isinstance(x, ast.Expr) and isinstance(x.value, ast.Constant))]
+    n_marker = n_plain = 0
+    bad = []
+    for p_ in paths(body_tl, split=True):
+        stm = [e[1] for e in p_.events if e[0] in ("stmt", "loop")]
+        if p_.exit != "return" or not stm or not isinstance(stm[-1], ast.Return):
+            continue
+        known, feasible = {}, True
+        empties = {}  # local list -> number of appends so far on this path
+        for e in p_.events:
+            if e[0] in ("stmt", "loop"):
+                x = e[1]
+                if isinstance(x, ast.Assign) and len(x.targets) == 1 and isinstance(x.targets[0], ast.Name):
+                    if isinstance(x.value, ast.List) and not x.value.elts:
+                        empties[x.targets[0].id] = 0
+                    else:
+                        empties.pop(x.targets[0].id, None)
+                for c_ in ([x.value] if isinstance(x, ast.Expr) else []):
+                    if isinstance(c_, ast.Call) and isinstance(c_.func, ast.Attribute) and c_.func.attr in ("append", "extend", "insert") \
+                            and isinstance(c_.func.value, ast.Name) and c_.func.value.id in empties:
+                        empties[c_.func.value.id] += 1 if c_.func.attr != "extend" else 0
+                        if c_.func.attr == "extend":
+                            empties.pop(c_.func.value.id, None)
+                continue
+            if e[0] != "test":
+                continue
+            try:
+                cnd = Tx().cond(e[1])
+            except symx.Unsupported:
+                continue
+            atom, pol = (cnd[1], e[2]) if cnd not in (True, False) and cnd[0] == "atom" else \
+                ((cnd[1][1], not e[2]) if cnd not in (True, False) and cnd[0] == "not" and cnd[1][0] == "atom" else (None, None))
+            if atom is None:
+                continue
+            if atom.startswith("truthy(") and atom[7:-1] in empties:
+                if pol != (empties[atom[7:-1]] > 0):
+                    feasible = False
+                continue
+            if atom in known and known[atom] != pol:
+                feasible = False
+            known[atom] = pol
+        if not feasible:
+            continue
+        leaf_branch = any(isinstance(x, ast.Assign) and norm(x.value) == f"{t_}[0]" for x in stm) or nd == f"{t_}[0]"
+        if not leaf_branch or known.get(f"eq(1,len({t_}))") is False:
+            continue
+        marker = any(isinstance(k, ast.Constant) and isinstance(k.value, str) and "Unpruned leaf" in k.value for x in stm
+                     if isinstance(x, (ast.Assign, ast.AugAssign, ast.Return)) for k in ast.walk(x))
+        if a_neb not in known or a_irv not in known:
+            if not any(isinstance(x, ast.Return) and norm(x.value).startswith(f"({nd}[0],") or isinstance(x, ast.Return) for x in stm[-1:]):
+                continue
+            bad.append("a leaf path returns without looking at both tag lists")
+            continue
+        both_empty = known[a_neb] is False and known[a_irv] is False
+        if marker != both_empty:
+            bad.append(f"NEB tags {'present' if known[a_neb] else 'absent'}, IRV tags {'present' if known[a_irv] else 'absent'}: marker "
+                       f"{'written' if marker else 'not written'}")
+        n_marker += marker
+        n_plain += not marker
+    ok = n_marker >= 1 and n_plain >= 1 and not bad
     others = [x for x in ast.walk(tl) if isinstance(x, ast.Constant) and isinstance(x.value, str) and "Unpruned leaf" in x.value]
     chk.ob("C20.R3", f"{VIS}:treeListToTuple", "marker-iff-both-empty", ok and len(others) == 1,
-           "the 'Unpruned leaf' marker is produced exactly when both tag lists of a leaf are empty", node=tl)
+           "the 'Unpruned leaf' marker is produced exactly when both tag lists of a leaf are empty", node=tl, problems=bad,
+           marker_paths=n_marker, other_leaf_paths=n_plain)
     # ---- R5 parseAssertions
     pa = chk.fn(VIS, "parseAssertions", canonical=True)
     rt = [r for r in walk_local(pa) if isinstance(r, ast.Return) and isinstance(r.value, ast.Tuple) and len(r.value.elts) == 4]
